@@ -97,6 +97,7 @@ var vFieldCases = []vFieldCase{
 
 // VH_EncodedField: exe, cwd, name, proctitle, cmd, data, acct.
 func VH_EncodedField() {
+	defer vWarm("C12")()
 	c := vFieldCases[vParam("case", 0)]
 	n := vParam("len", 3)
 	lo := byte(1)
@@ -153,6 +154,7 @@ func VH_EncodedField() {
 
 // VH_Execve: argc and a0..a(argc-1), each kernel-encoded.
 func VH_Execve() {
+	defer vWarm("C12")()
 	argc := vParam("argc", 2)
 	n := vParam("len", 2)
 	text := "argc=" + strconv.Itoa(argc)
@@ -199,6 +201,7 @@ func vPut16BE(v uint16) []byte { return []byte{byte(v >> 8), byte(v)} }
 
 // VH_Saddr: struct sockaddr as hex.
 func VH_Saddr() {
+	defer vWarm("C12")()
 	var raw []byte
 	fam := vParam("family", 0)
 	var port uint16
@@ -281,6 +284,7 @@ func VH_Saddr() {
 
 // VH_PlainField: plain key=value fields are left unchanged; only the placeholders are dropped.
 func VH_PlainField() {
+	defer vWarm("C12")()
 	n := vParam("len", 3)
 	v := vASCII("v", n)
 	for i := 0; i < n; i++ {
